@@ -238,6 +238,12 @@ func runC02(c *core.Ctx) {
 	// adversarial families: time of the implementation (measured, not proved) and agreement with the model
 	adv := adversarial(sizes)
 	prev := map[string][]float64{}
+	maxMs := map[string]int64{}
+	defer func() {
+		for f, ms := range maxMs {
+			c.Count("slowest_ms_"+strings.ReplaceAll(f, " ", "_"), ms)
+		}
+	}()
 	// what every call pays whatever the document: loading the schema (prelude included)
 	base := 1e9
 	for rep := 0; rep < 5; rep++ {
@@ -262,6 +268,9 @@ func runC02(c *core.Ctx) {
 			}
 		}
 		c.Count("adversarial_"+strings.ReplaceAll(a.family, " ", "_"), 1)
+		if ms := int64(el * 1000); ms > maxMs[a.family] {
+			maxMs[a.family] = ms
+		}
 		if strings.HasPrefix(impl, "panic") {
 			c.ReportOracle("validate-panic", map[string]interface{}{"op": "val", "args": hexArgs(args), "family": a.family, "size": a.size, "implementation": impl})
 			continue
